@@ -54,7 +54,26 @@ class BodyParser:
             nd, i = self.stmt(i, close)
             if nd is not None:
                 out.append(nd)
-        return out
+        # E13: `let mut alt_ok_K = false; 'alt_K: loop { CORE; alt_ok_K = true; break 'alt_K; } if alt_ok_K { OK }`
+        # is one inlined alternative
+        grouped = []
+        i = 0
+        while i < len(out):
+            a = out[i]
+            m = re.match(r"let\s+mut\s+(alt_ok_\d+)\s*=\s*false", a.text) if a.kind in ("pure", "assign") else None
+            if m and i + 2 < len(out) and out[i + 1].kind == "altloop" and out[i + 2].kind == "if" \
+                    and out[i + 2].cond.strip() == m.group(1) and out[i + 2].els is None:
+                lp = out[i + 1]
+                core = lp.body
+                if len(core) >= 2 and core[-1].kind == "break" and getattr(core[-1], "label", None) == lp.label \
+                        and core[-2].kind in ("pure", "assign") and re.match(r"%s\s*=\s*true" % m.group(1), core[-2].text):
+                    grouped.append(Node("alt", flag=m.group(1), label=lp.label, loop=lp, core=core[:-2], ok=out[i + 2].then,
+                                        ifn=out[i + 2], i0=a.i0))
+                    i += 3
+                    continue
+            grouped.append(a)
+            i += 1
+        return grouped
 
     def _end_of_simple(self, i, close):
         """index of the terminating `;` of a simple statement starting at i, or close."""
@@ -82,6 +101,13 @@ class BodyParser:
         if t.k == "life" and st[i + 1].t == ":" and st[i + 2].t == "{":
             # labelled block ('ordered_choice) -- only in external functions
             return Node("other", i0=i, i1=self.ix.pair[i + 2], text="labelled block"), self.ix.pair[i + 2] + 1
+        if t.k == "life" and st[i + 1].t == ":" and st[i + 2].t == "loop" and st[i + 3].t == "{":
+            # E13: pseudo-loops that carry the control flow of an ordered choice ('ordered_choice) and
+            # of one inlined alternative ('alt_K); their bodies run at most once
+            j = self.ix.pair[i + 3]
+            body = self.block(i + 3)
+            kind = "oc" if t.t == "'ordered_choice" else "altloop"
+            return Node(kind, label=t.t, i_lbl=i, i_kw=i + 2, i_brace=i + 3, i_end=j, body=body), j + 1
         if t.t == "#" and st[i + 1].t == "[":
             return None, self.ix.pair[i + 1] + 1
         if t.t == "loop" and st[i + 1].t == "{":
@@ -106,6 +132,15 @@ class BodyParser:
             e = self.ix.pair[j]
             els = None
             nxt = e + 1
+            mt = re.fullmatch(r"(?:(self|parser)\s*\.\s*(rule_\w+)|(rec))\s*\((.*)\)\s*\.\s*is_none\s*\(\s*\)", cond.strip(), re.S)
+            if mt and len(then) == 1 and then[0].kind == "break" and then[0].label:
+                # E13: `e?;` inside an inlined alternative
+                if mt.group(3):
+                    args = [a.strip() for a in mt.group(4).split(",")]
+                    call = Node("rec", args=args, recv=args[0], i0=i, i1=e, text=cond)
+                else:
+                    call = Node("call", var=None, recv=mt.group(1), method=mt.group(2), args=mt.group(4), i0=i, i1=e, text=cond)
+                return Node("trycall", call=call, label=then[0].label, i0=i, i1=e), nxt
             if nxt < close and st[nxt].t == "else":
                 if st[nxt + 1].t == "{":
                     els = self.block(nxt + 1)
@@ -117,16 +152,17 @@ class BodyParser:
             return Node("if", cond=cond, then=then, els=els, i0=i, i1=nxt - 1), nxt
         if t.t in ("break", "continue", "return"):
             e = self._end_of_simple(i, close)
-            return Node(t.t, i0=i, text=self.text(i, min(e, close - 1))), e + 1
-        if t.t in ("expect", "try_expect") and st[i + 1].t == "!":
+            label = st[i + 1].t if (t.t == "break" and st[i + 1].k == "life") else None
+            return Node(t.t, i0=i, label=label, text=self.text(i, min(e, close - 1))), e + 1
+        if t.t in ("expect", "try_expect", "try_expect_brk") and st[i + 1].t == "!":
             p = i + 2
             q = self.ix.pair[p]
             tok = st[p + 1].t
-            # last two macro args: receiver, diags
+            # last macro args: receiver, diags [, label]
             args = self.text(p + 1, q - 1)
-            m = re.search(r",\s*(self|parser)\s*,\s*diags\s*$", args)
+            m = re.search(r",\s*(self|parser)\s*,\s*diags\s*(?:,\s*('\w+)\s*)?$", args)
             e = self._end_of_simple(q, close)
-            return Node("expect", tok=tok, recv=m.group(1) if m else None, try_=(t.t == "try_expect"), i0=i), e + 1
+            return Node("expect", tok=tok, recv=m.group(1) if m else None, try_=(t.t != "expect"), label=(m.group(2) if m else None), i0=i), e + 1
         # simple statement up to `;`
         e = self._end_of_simple(i, close)
         txt = self.text(i, min(e, close - 1))
@@ -149,6 +185,8 @@ class BodyParser:
             return Node("assign", var=m.group(1), src=m.group(2), i0=i, text=txt)
         if re.match(r"^(self|parser)\s*\.\s*(error_since_advance|in_ordered_choice)\s*=", txt):
             return Node("fieldwrite", i0=i, text=txt)
+        if re.match(r"^let\s+\w+\s*=\s*(self|parser)\s*\.\s*in_ordered_choice\s*;?$", txt):
+            return Node("pure", i0=i, text=txt)
         if re.match(r"^(let\s+(mut\s+)?\w+\s*=\s*[\w:]+\s*;?|\w+\s*=\s*[\w:]+\s*;?|diags\s*\.\s*push\s*\(\s*diag\s*\)\s*;?|Some\s*\(\s*\(\s*\)\s*\)|let\s+\w+\s*=\s*\w+\s*;)$", txt):
             return Node("pure", i0=i, text=txt)
         return Node("other", i0=i, text=txt)
@@ -246,6 +284,8 @@ class Interp:
         self.memo = {}
         self.ext = set()          # names of E8 (external) rule functions
         self.ext_entry = {}       # external fn -> tokens it is entered with at verified call sites
+        self.saved = []           # E13: cursor states saved by get_state of the enclosing ordered choices
+        self.altok = {}           # id(alt node) -> {tok: 'P'|'N'|'U'} progress of the successful exit
 
     # -- helpers
     def callee_outcome(self, callee, state):
@@ -274,7 +314,14 @@ class Interp:
             return ("P", None)
         return ("U", None)
 
+    @staticmethod
+    def merge(dst, src, skip=()):
+        for fl, v in src.items():
+            if fl not in skip:
+                dst.setdefault(fl, set()).update(v)
+
     def seq(self, stmts, state):
+        """Flows: next / break / continue / return, and 'brk:<label>' for labelled breaks (E13)."""
         res = {fl: set() for fl in self.FLOWS}
         states = {state}
         for s in stmts:
@@ -282,8 +329,7 @@ class Interp:
             for sx in states:
                 r = self.stmt(s, sx)
                 nxt |= r.get("next", set())
-                for fl in ("break", "continue", "return"):
-                    res[fl] |= r.get(fl, set())
+                self.merge(res, r, skip=("next",))
             states = nxt
             if not states:
                 break
@@ -291,7 +337,7 @@ class Interp:
         return res
 
     def stmt(self, s, state):
-        key = (id(s), state, self.record)
+        key = (id(s), state, self.record, self.saved[-1] if self.saved else None)
         if key in self.memo:
             return self.memo[key]
         r = self.stmt1(s, state)
@@ -308,11 +354,45 @@ class Interp:
                 r = {"next": {("P", None)}}
             else:
                 r = {"next": {("P", None), ("U", None)}}
-            if s.try_:
-                r["return"] = {state}
+            if s.try_ and (tok is None or tok != s.tok):
+                # the mismatch path of try_expect!: `return None` (flow "retnone": the contract of an
+                # Option-returning rule promises progress only for `Some`) or a break out of an inlined alternative
+                lab = getattr(s, "label", None)
+                r["brk:" + lab if lab else "retnone"] = {state}
             return r
+        if k == "trycall":
+            r = dict(self.stmt1(s.call, state))
+            r["brk:" + s.label] = {("P", None) if prog == "P" else ("U", None)}
+            return r
+        if k == "alt":
+            out = {}
+            r = self.seq(s.core, state)
+            self.merge(out, r, skip=("next", "brk:" + s.label))
+            nxt = set(r.get("brk:" + s.label, set()))
+            for okst in r.get("next", set()):
+                r2 = self.seq(s.ok, okst)
+                self.merge(out, r2, skip=("next",))
+                nxt |= r2.get("next", set())
+            out["next"] = nxt
+            return out
+        if k == "oc":
+            self.saved.append(state)
+            try:
+                r = self.seq(s.body, state)
+            finally:
+                self.saved.pop()
+            out = {}
+            self.merge(out, r, skip=("next", "brk:" + s.label))
+            out["next"] = set(r.get("next", set())) | set(r.get("brk:" + s.label, set()))
+            return out
+        if k == "altloop":
+            # an inlined alternative that was not grouped with its flag test: effect unknown
+            return {"next": {("P", None) if prog == "P" else ("U", None)}}
         if k == "call":
             m = s.method
+            if m == "set_state":
+                # the cursor is back where get_state of the enclosing ordered choice saw it
+                return {"next": {self.saved[-1] if self.saved else ("U", None)}}
             if m == "advance":
                 return {"next": {("P", None)}}
             if m == "advance_with_error":
@@ -332,18 +412,31 @@ class Interp:
         if k in ("assign", "pure", "fieldwrite"):
             return {"next": {state}}
         if k in ("break", "continue", "return"):
+            lab = getattr(s, "label", None)
+            if k == "break" and lab:
+                return {"brk:" + lab: {state}}
+            if k == "return" and re.match(r"return\s+None\b", s.text):
+                return {"retnone": {state}}
             return {k: {state}}
         if k == "if":
+            mm = re.fullmatch(r"matches!\s*\(\s*(?:self|parser)\s*\.\s*current\s*,\s*((?:\|?\s*Token::\w+\s*)(?:\|\s*Token::\w+\s*)*)\)", s.cond.strip(), re.S)
+            out = {}
+            if mm and tok is not None:
+                # the guard of an ordered-choice alternative: decided by the current token
+                names = set(re.findall(r"Token::(\w+)", mm.group(1)))
+                if tok in names:
+                    return self.seq(s.then, state)
+                return self.seq(s.els, state) if s.els is not None else {"next": {state}}
             r1 = self.seq(s.then, state)
             r2 = self.seq(s.els, state) if s.els is not None else {"next": {state}}
-            return {fl: r1.get(fl, set()) | r2.get(fl, set()) for fl in self.FLOWS}
+            self.merge(out, r1)
+            self.merge(out, r2)
+            return out
         if k == "match":
             out = {fl: set() for fl in self.FLOWS}
             if s.recv is None:
                 for a in s.arms:
-                    r = self.seq(a.body, state)
-                    for fl in out:
-                        out[fl] |= r.get(fl, set())
+                    self.merge(out, self.seq(a.body, state))
                 return out
             toks = [tok] if tok is not None else self.alphabet
             for t2 in toks:
@@ -351,9 +444,7 @@ class Interp:
                 for a in s.arms:
                     if not (a.wild or (t2 in a.toks)):
                         continue
-                    r = self.seq(a.body, st2)
-                    for fl in out:
-                        out[fl] |= r.get(fl, set())
+                    self.merge(out, self.seq(a.body, st2))
                     if a.guard is None or a.guard == "true":
                         break
             return out
@@ -364,7 +455,8 @@ class Interp:
                     e[0].add(tok)
                 elif prog == "U":
                     e[1] = True
-            exits, rets = set(), set()
+            exits = set()
+            out = {}
             seen = set()
             work = [state]
             while work:
@@ -373,11 +465,13 @@ class Interp:
                     continue
                 seen.add(sx)
                 r = self.seq(s.body, sx)
-                exits |= r["break"]
-                rets |= r["return"]
-                for s2 in r["next"] | r["continue"]:
+                exits |= r.get("break", set())
+                self.merge(out, r, skip=("next", "break", "continue"))     # return, labelled breaks
+                for s2 in r.get("next", set()) | r.get("continue", set()):
                     work.append(("P", None) if s2[0] == "P" else ("U", None))
-            return {"next": exits, "return": rets}
+            out["next"] = exits
+            out.setdefault("return", set())
+            return out
         # other
         return {"next": {("P", None) if prog == "P" else ("U", None)}}
 
@@ -421,9 +515,13 @@ class Interp:
 
         def all_loops(stmts, acc):
             for s in stmts:
-                if s.kind == "loop":
+                if s.kind in ("loop", "oc"):
                     acc.append(s)
                     all_loops(s.body, acc)
+                elif s.kind == "alt":
+                    acc.append(s)
+                    all_loops(s.core, acc)
+                    all_loops(s.ok, acc)
                 elif s.kind == "match":
                     for a in s.arms:
                         all_loops(a.body, acc)
@@ -431,6 +529,13 @@ class Interp:
                     all_loops(s.then, acc)
                     if s.els:
                         all_loops(s.els, acc)
+
+        def classify(ex, t):
+            if ex and all(o[0] == "P" for o in ex):
+                return {"P"}
+            if ex == {("N", t)}:
+                return {"N"}
+            return {"U"}
         for f, body in self.fns.items():
             self.cur_fn = f
             acc = []
@@ -438,15 +543,20 @@ class Interp:
             for lp in acc:
                 d = {}
                 for t in self.alphabet:
-                    r = self.stmt(lp, ("N", t))
-                    ex = r["next"]
-                    if ex and all(o[0] == "P" for o in ex):
-                        d[t] = {"P"}
-                    elif ex == {("N", t)}:
-                        d[t] = {"N"}
+                    if lp.kind == "alt":
+                        # progress of the successful exit of an inlined alternative
+                        self.saved.append(("N", t))
+                        try:
+                            ex = self.seq(lp.core, ("N", t)).get("next", set())
+                        finally:
+                            self.saved.pop()
                     else:
-                        d[t] = {"U"}
-                self.loops[id(lp)] = d
+                        ex = self.stmt(lp, ("N", t))["next"]
+                    d[t] = classify(ex, t)
+                if lp.kind == "alt":
+                    self.altok[id(lp)] = d
+                else:
+                    self.loops[id(lp)] = d
         return rounds
 
     def ranks(self):
@@ -523,6 +633,8 @@ class Emitter:
         self.nloop = 0
         self.nassert = 0
         self.c07 = None
+        self.attempt = 0      # > 0 while walking the body of an inlined ordered-choice alternative
+        self.has_oc = "'ordered_choice" in ix.text(f.i_body, f.i_end)
         self.depth = {"lhs": 0}
 
     def walk(self, stmts, opened, closed):
@@ -546,9 +658,30 @@ class Emitter:
                 m = re.match(r"\s*(\w+)\s*,", s.args)
                 if m and m.group(1) in opened:
                     opened.remove(m.group(1))
+            if s.kind == "fieldwrite" and re.match(r"^(self|parser)\s*\.\s*in_ordered_choice\s*=", s.text) and self.has_oc:
+                # a direct write of the choice flag: the tree part of the state is untouched; name the
+                # states so that facts about boundary marks carry over (quantifier instantiation hint)
+                self.nassert += 1
+                a = "w_%d" % self.nassert
+                r = self.recv
+                e = self.ix.st[s.i0].s
+                self.ed.insert(e, "let ghost %s = *%s;\n            " % (a, r))
+                j = s.i0
+                while self.ix.st[j].t != ";":
+                    j += 1
+                self.ed.insert(self.ix.st[j].e, "\n            proof { assert(forall|k: int| #[trigger] %s.mk(k) ==> %s.mk(k)); assert(forall|k: int| #[trigger] %s.mk(k) ==> %s.mk(k)); }" % (a, r, r, a))
             if s.kind == "loop":
                 self.emit_loop(s, opened, closed)
                 self.walk(s.body, opened, closed)
+            elif s.kind == "oc":
+                self.emit_oc(s, opened, closed)
+                self.walk(s.body, opened, closed)
+            elif s.kind == "alt":
+                self.emit_alt(s, opened, closed)
+                self.attempt += 1
+                self.walk(s.core, opened, closed)
+                self.attempt -= 1
+                self.walk(s.ok, opened, closed)
             elif s.kind == "match":
                 for a in s.arms:
                     self.walk(a.body, opened, closed)
@@ -565,10 +698,19 @@ class Emitter:
                     self.walk(s.els, opened, closed)
         return opened, closed
 
-    def emit_loop(self, s, opened, closed):
-        ix, st, r = self.ix, self.ix.st, self.recv
-        self.nloop += 1
-        k = self.nloop
+    def flag_clause(self):
+        """What is known about in_ordered_choice outside an undoable attempt."""
+        r = self.recv
+        if self.f.has_ret:
+            # a rule that is also used inside an ordered choice: the flag is only ever cleared (commit,
+            # last alternative) -- a caller outside any attempt stays outside
+            return "(!old(%s).in_ordered_choice ==> !%s.in_ordered_choice),   // [C08]" % (r, r)
+        return "!%s.in_ordered_choice,   // [C08]" % r
+
+    def facts(self, i_use, opened, closed, k, flag=True):
+        """Clauses (relative to the function's entry state) that hold at the head of a construct and
+        at its exits: step relation, shape of the open-node stack, live boundary marks, cursor."""
+        ix, r = self.ix, self.recv
         o = "old(%s)" % r
         from merge import macro_clauses
         B = self.bound()
@@ -579,17 +721,117 @@ class Emitter:
             e += ".drop_last()"
         inv.append("%s == %s.rstack(),   // [C02] below them the stack is the caller's" % (e, o))
         inv += ["%s.pos >= p_%d,   // [C03]" % (r, k), "(%s.pos == p_%d ==> %s.current == c_%d),   // [C03]" % (r, k, r, k)]
-        if self.f.has_ret:
-            inv.append("%s.in_ordered_choice == %s.in_ordered_choice,   // [C08]" % (r, o))
-        else:
-            inv.append("!%s.in_ordered_choice,   // [C08]" % r)
+        if flag and self.attempt == 0:
+            inv.append(self.flag_clause())
         if self.f.parent is not None and "lhs" in closed and closed["lhs"] == 0:
             inv.append("lhs.0 == lhs0.0,   // [C02]")
         for v in closed:
-            if uses_after(ix, self.f, s.i_kw, v):
+            if uses_after(ix, self.f, i_use, v):
                 drops = max(0, len(opened) - closed[v])
                 stk = "%s.rstack()" % r + ".drop_last()" * drops
                 inv.append("%s.mk(%s.0 as int) && top_of(%s) < %s.0 && %s <= %s.0,   // [C01,C02] %s is still a sibling boundary" % (r, v, stk, v, B, v, v))
+        return inv
+
+    def assigned_outer(self, i_lo, i_hi):
+        """Locals declared outside the token range (i_lo, i_hi) and assigned inside it."""
+        st = self.ix.st
+        let, asg = set(), []
+        for j in range(i_lo + 1, i_hi):
+            if st[j].t == "let":
+                q = j + 1
+                if st[q].t == "mut":
+                    q += 1
+                if st[q].k == "id":
+                    let.add(st[q].t)
+            if st[j].k == "id" and st[j + 1].t == "=" and st[j - 1].t in (";", "{", "}") and st[j].t not in ("self", "parser"):
+                if st[j].t not in asg:
+                    asg.append(st[j].t)
+        return [v for v in asg if v not in let]
+
+    PSEUDO_ATTR = "#[verifier::loop_isolation(false)] #[verifier::allow_complex_invariants]\n            "
+
+    def emit_oc(self, s, opened, closed):
+        """E13 pseudo-loop that carries an ordered choice: runs once; entered in state o_k (the state
+        get_state saves), left through `break 'ordered_choice` only."""
+        ix, st, r = self.ix, self.ix.st, self.recv
+        self.nloop += 1
+        k = self.nloop
+        ind = " " * 12
+        pins = self.assigned_outer(s.i_brace, s.i_end)
+        pre = "let ghost p_%d = %s.pos; let ghost c_%d = %s.current; let ghost o_%d = *%s;\n%s" % (k, r, k, r, k, r, ind)
+        for v in pins:
+            pre += "let ghost %s_%d = %s;\n%s" % (v, k, v, ind)
+        self.ed.insert(st[s.i_lbl].s, pre + self.PSEUDO_ATTR)
+        exc = ["*%s == o_%d,   // the body runs once" % (r, k)] + ["%s == %s_%d," % (v, v, k) for v in pins]
+        ens = self.facts(s.i_kw, opened, closed, k)
+        exits = self.interp.loops.get(id(s), {})
+        P = {t for t in self.alphabet if exits.get(t) == {"P"}}
+        N = {t for t in self.alphabet if exits.get(t) == {"N"}}
+        if P:
+            ens.append("%s ==> %s.pos > p_%d,   // [C03]" % (tokset("c_%d" % k, P, self.alphabet), r, k))
+        if N:
+            ens.append("%s ==> %s.pos == p_%d,   // [C03]" % (tokset("c_%d" % k, N, self.alphabet), r, k))
+        txt = "\n%s  invariant_except_break\n%s    %s\n" % (ind, ind, ("\n%s    " % ind).join(exc))
+        txt += "%s  ensures\n%s    %s\n" % (ind, ind, ("\n%s    " % ind).join(ens))
+        txt += "%s  decreases 0int\n%s" % (ind, ind)
+        self.ed.insert(st[s.i_brace].s, txt)
+        self.ed.insert(st[s.i_brace].e, "\n%sbroadcast use lemma_span_ok, lemma_mk_bound;\n%sproof { reveal(Parser::twf); reveal(Parser::ewf); reveal(Parser::mk); }" % (ind, ind))
+        # the saved state and the backtracking steps
+        gs = [c for c in s.body if c.kind == "call" and c.method == "get_state" and c.var]
+        if len(gs) != 1 or s.body[0] is not gs[0]:
+            raise Lost("E13: ordered choice does not start with `let state = get_state(..)`")
+        sv = gs[0].var
+        self.ed.insert(st[gs[0].i1].e, "\n%slet ghost s_%d = *%s;" % (ind, k, r))
+        nset = 0
+        for c in s.body:
+            for d in ([c] if c.kind == "call" else (c.then if c.kind == "if" else [])):
+                if d.kind == "call" and d.method == "set_state":
+                    if not re.match(r"\s*&\s*%s\s*," % re.escape(sv), d.args):
+                        raise Lost("E13: set_state with an unexpected argument")
+                    nset += 1
+                    g = "pre_%d_%d" % (k, nset)
+                    self.ed.insert(st[d.i0].s, "let ghost %s = *%s;\n%s    proof {\n%s        assume(%s.frame_ok(&%s));   // ASSUMED (E13 frame): the abandoned alternative left the tree below the saved mark alone\n%s        lemma_restorable(%s, &%s, &s_%d);\n%s    }\n%s    " % (g, r, ind, ind, r, sv, ind, r, sv, k, ind, ind))
+                    self.ed.insert(st[d.i1].e, "\n%s    proof { lemma_restored(%s, &%s, &%s, &s_%d); }" % (ind, r, g, sv, k))
+        self.report.setdefault("assumed_frames", []).append({"fn": self.key, "set_state_calls": nset})
+
+    def emit_alt(self, s, opened, closed):
+        """E13 inlined alternative: `'alt_K: loop { CORE; alt_ok_K = true; break 'alt_K; }`."""
+        ix, st, r = self.ix, self.ix.st, self.recv
+        self.nloop += 1
+        k = self.nloop
+        ind = " " * 16
+        lp = s.loop
+        pins = [v for v in self.assigned_outer(lp.i_brace, lp.i_end) if v != s.flag]
+        pre = "let ghost p_%d = %s.pos; let ghost c_%d = %s.current; let ghost a_%d = *%s;\n%s" % (k, r, k, r, k, r, ind)
+        for v in pins:
+            pre += "let ghost %s_%d = %s;\n%s" % (v, k, v, ind)
+        self.ed.insert(st[s.i0].s, pre)
+        self.ed.insert(st[lp.i_lbl].s, self.PSEUDO_ATTR)
+        exc = ["*%s == a_%d,   // the body runs once" % (r, k), "!%s," % s.flag] + ["%s == %s_%d," % (v, v, k) for v in pins]
+        self.attempt += 1
+        fs = self.facts(s.i0, opened, closed, k, flag=False)
+        self.attempt -= 1
+        ens = []
+        for c in fs:
+            cl, _, cm = c.partition(",   //")
+            ens.append("(%s ==> %s),   //%s" % (s.flag, cl, cm))
+        ens.append("(!%s ==> %s.cwf() && %s.twf() && %s.ewf() && %s.same_input(&a_%d) && %s.pos >= a_%d.pos),   // [C08] an abandoned alternative leaves a well-formed parser on the same input" % (s.flag, r, r, r, r, k, r, k))
+        ok = self.interp.altok.get(id(s), {})
+        P = {t for t in self.alphabet if ok.get(t) == {"P"}}
+        if P:
+            ens.append("(%s && %s ==> %s.pos > p_%d),   // [C03]" % (s.flag, tokset("c_%d" % k, P, self.alphabet), r, k))
+        txt = "\n%s  invariant_except_break\n%s    %s\n" % (ind, ind, ("\n%s    " % ind).join(exc))
+        txt += "%s  ensures\n%s    %s\n" % (ind, ind, ("\n%s    " % ind).join(ens))
+        txt += "%s  decreases 0int\n%s" % (ind, ind)
+        self.ed.insert(st[lp.i_brace].s, txt)
+        self.ed.insert(st[lp.i_brace].e, "\n%sbroadcast use lemma_span_ok, lemma_mk_bound;\n%sproof { reveal(Parser::twf); reveal(Parser::ewf); reveal(Parser::mk); }" % (ind, ind))
+
+    def emit_loop(self, s, opened, closed):
+        ix, st, r = self.ix, self.ix.st, self.recv
+        self.nloop += 1
+        k = self.nloop
+        o = "old(%s)" % r
+        inv = self.facts(s.i_kw, opened, closed, k)
         ent = self.interp.loop_entry.get(id(s))
         if ent is not None and not ent[1] and len(ent[0]) < len(self.alphabet):
             # without progress since the function was entered, the loop is reached only on these tokens
@@ -649,8 +891,8 @@ class Emitter:
         if opt:
             # backtracking is requested only while an ordered choice is being tried
             ens = [("(r is Some ==> %s)" % e, c) for (e, c) in ens]
-            ens.append(("(r is None ==> %s.in_ordered_choice && %s.wf() && %s.same_input(%s))" % (o, fin, fin, o), "[C08] backtracking is only requested while a choice is being tried"))
-            ens.append(("%s.in_ordered_choice == %s.in_ordered_choice" % (fin, o), "[C08]"))
+            ens.append(("(r is None ==> %s.in_ordered_choice && %s.wf() && %s.same_input(%s) && %s.pos >= %s.pos)" % (o, fin, fin, o, fin, o), "[C08] backtracking is only requested while a choice is being tried"))
+            ens.append(("(!%s.in_ordered_choice ==> !%s.in_ordered_choice)" % (o, fin), "[C08] outside an undoable attempt the flag is clear again on return"))
         else:
             req.append(("!%s.in_ordered_choice" % o, "[C08] not inside an undoable attempt"))
             ens.append(("!%s.in_ordered_choice" % fin, "[C08]"))
@@ -882,10 +1124,13 @@ def annotate(ix, ed, report, skeleton_only=False):
 
         def find_other(stmts):
             for s in stmts:
-                if s.kind == "other":
-                    unk.append(s.text[:60])
-                elif s.kind == "loop":
+                if s.kind in ("other", "altloop"):
+                    unk.append(getattr(s, "text", s.kind)[:60])
+                elif s.kind in ("loop", "oc"):
                     find_other(s.body)
+                elif s.kind == "alt":
+                    find_other(s.core)
+                    find_other(s.ok)
                 elif s.kind == "match":
                     for a in s.arms:
                         find_other(a.body)
@@ -908,7 +1153,7 @@ def annotate(ix, ed, report, skeleton_only=False):
             prog = tokset("old(p).current", K, alphabet) if K else "false"
             rep["functions"][key]["assumed_progress_on"] = sorted(K)
             if f.has_ret:
-                ext_specs.append("pub assume_specification<'a> [Parser::<'a>::%s] %s -> (r: Option<()>)\n    requires old(p).wf(),\n    ensures (r is Some ==> final(p).step(old(p))), (r is None ==> old(p).in_ordered_choice && final(p).wf() && final(p).same_input(old(p))),\n        (!old(p).in_ordered_choice ==> !final(p).in_ordered_choice),\n        (r is Some && %s ==> final(p).pos > old(p).pos);\n" % (f.name, sig, prog))
+                ext_specs.append("pub assume_specification<'a> [Parser::<'a>::%s] %s -> (r: Option<()>)\n    requires old(p).wf(),\n    ensures (r is Some ==> final(p).step(old(p))), (r is None ==> old(p).in_ordered_choice && final(p).wf() && final(p).same_input(old(p)) && final(p).pos >= old(p).pos),\n        (!old(p).in_ordered_choice ==> !final(p).in_ordered_choice),\n        (r is Some && %s ==> final(p).pos > old(p).pos);\n" % (f.name, sig, prog))
             else:
                 ext_specs.append("pub assume_specification<'a> [Parser::<'a>::%s] %s\n    requires old(p).wf(), !old(p).in_ordered_choice,\n    ensures final(p).step(old(p)), !final(p).in_ordered_choice,\n        (%s ==> final(p).pos > old(p).pos);\n" % (f.name, sig, prog))
     report["ext_specs"] = ext_specs + c07_specs
